@@ -1609,6 +1609,11 @@ class PathCtx:
     def note(self, k, v):
         self.notes[k] = v
 
+    def case(self, n=1):
+        """count n distinct non-trivial cases decided inside this path (e.g. one rooted tree each)"""
+        if not self.replaying:
+            self.ex.stats["extra_cases"] = self.ex.stats.get("extra_cases", 0) + n
+
     # number-type-generic helpers (mirrored by ConcreteCtx)
     symbolic = True
 
